@@ -373,7 +373,8 @@ class LSMTree(Entity):
         self._logical_data[key] = value
 
         if self._wal is not None:
-            self._wal.append_sync(key, value)
+            seq = self._wal.append_sync(key, value)
+            self._wal_pending[seq] = self._memtable
             self._total_wal_writes += 1
 
         is_full = self._memtable.put_sync(key, value)
@@ -569,6 +570,10 @@ class LSMTree(Entity):
         """Flush without yielding latency."""
         if self._memtable.size == 0:
             return
+        # An older memtable is still being written out by a flush process: its
+        # SSTable must reach L0 before this newer one, so flush on a later write
+        if self._immutable_memtables:
+            return
 
         sstable = self._memtable.flush()
         self._sstable_bytes_written += sstable.size_bytes
@@ -577,8 +582,14 @@ class LSMTree(Entity):
 
         # Reset memtable (flush() already clears it)
 
+        # Truncate the WAL like the generator path does: only below the oldest
+        # entry whose write is not in an SSTable yet (writers suspended in
+        # wal.append, memtables whose flush is still in flight)
         if self._wal is not None:
-            self._wal.truncate(self._wal._next_sequence - 1)
+            for seq in [q for q, m in self._wal_pending.items() if m is self._memtable]:
+                del self._wal_pending[seq]
+            bound = min(self._wal_pending, default=self._wal._next_sequence)
+            self._wal.truncate(bound - 1)
 
         if self._compaction_strategy.should_compact(self._levels):
             self._compact_sync()
@@ -605,7 +616,7 @@ class LSMTree(Entity):
         # Also include overlapping SSTables from target level
         overlapping = []
         if target_level != source_level:
-            for sst in self._levels[target_level]:
+            for sst in reversed(self._levels[target_level]):  # newest first: first occurrence of a key wins
                 if any(sst.overlaps(s) for s in sstables):
                     overlapping.append(sst)
                     for k, v in sst.scan():
@@ -647,6 +658,10 @@ class LSMTree(Entity):
 
     def _compact_sync(self) -> None:
         """Run compaction without yielding latency."""
+        # Never merge SSTables a suspended compaction process has already selected
+        if self._compaction_in_progress:
+            return
+
         source_level, sstables = self._compaction_strategy.select_compaction(self._levels)
         if not sstables:
             return
@@ -657,7 +672,7 @@ class LSMTree(Entity):
 
         overlapping = []
         if target_level != source_level:
-            for sst in self._levels[target_level]:
+            for sst in reversed(self._levels[target_level]):  # newest first: first occurrence of a key wins
                 if any(sst.overlaps(s) for s in sstables):
                     overlapping.append(sst)
                     for k, v in sst.scan():
